@@ -84,7 +84,9 @@ class Val:
             else:
                 q = R.QCVaR(col, param)
                 k1 = bool(q.in_k1)
-                tl = q.tolerances(prec, eps, level_relerr=2.0 ** -23)
+                # all brackets are halved together until the widest is below the precision of the call (see C05)
+                wmax = max(float(max(c) - min(c)) for _, c in self.cols) + 2e-8
+                tl = q.tolerances(prec * (float(q.range) + 2e-8) / wmax, eps, level_relerr=2.0 ** -23)
                 if tl is None:
                     sk, er = "qcvar:stationarity-level-below-dtype-resolution", (Fr(0), Fr(0))
                 else:
@@ -147,7 +149,9 @@ def coherent_case(draw):
             "param": param,
             "param2": draw(A_S) if crit == "entropic" else (draw(p_spec_s()) if crit == "es" else None),
             "k": draw(st.one_of(st.sampled_from([2.0, 0.5, 4.0, 0.25, 1024.0, 2.0 ** -10, 3.0, 0.1]), st.floats(0.01, 100.0))),
-            "k1_probe": False}
+            "k1_probe": False,
+            "col_scales": (draw(st.sampled_from([None, None, None, [1.0, 1e3], [1e4, 1.0, 1e-2], [1.0, 1e5]]))
+                           if crit == "qcvar" and dtype == "float64" and len(shape) >= 2 and tk == "none" else None)}
 
 
 def coherent_samples(case):
@@ -156,6 +160,15 @@ def coherent_samples(case):
     x = build(case["x"], dtype)
     y = build(case["y"], dtype)
     delta = build_nonneg(case["delta"], dtype)
+    cs = case.get("col_scales")
+    if cs and x.ndim >= 2:
+        # books of very different size side by side (the same factors for every position of the case)
+        def scaled(a):
+            flat = a.reshape(a.shape[0], -1).copy()
+            for j in range(flat.shape[1]):
+                flat[:, j] = flat[:, j] * flat.dtype.type(cs[j % len(cs)])
+            return flat.reshape(a.shape)
+        x, y, delta = scaled(x), scaled(y), scaled(delta)
     tk = case["target"]["kind"]
     via = case["via"]
     c = float(case["c"])
